@@ -452,7 +452,7 @@ pub fn check_recipe(r: &Recipe, lim: Limits, stats: &mut Stats) -> Result<(), Fa
 // 2 MiB stack; the process running this is a child of the supervisor, so that a stack overflow (SIGSEGV /
 // SIGABRT) is attributed to one spec of one build.
 
-pub const DEEP_KINDS: [&str; 8] = [
+pub const DEEP_KINDS: [&str; 9] = [
     "leading integer zeros, then 1",
     "0. then fraction zeros, then 1",
     "integer of nines",
@@ -461,6 +461,7 @@ pub const DEEP_KINDS: [&str; 8] = [
     "0. then a fraction of threes",
     "1e then an exponent of nines",
     "-0 then leading zeros, a point, zeros, digits, e-, zeros, 7",
+    "a fixed list of short signed literals (specials, zeros, underflow, overflow) - build-profile dependence",
 ];
 
 pub fn deep_input(kind: usize, n: usize) -> Vec<u8> {
@@ -509,6 +510,23 @@ pub fn deep_input(kind: usize, n: usize) -> Vec<u8> {
 
 /// Run every front-end copy on one deep input, on a 2 MiB thread.  Ok(()) / Err(message).
 pub fn deep_check(kind: usize, n: usize) -> Result<(), String> {
+    if kind == 8 {
+        // not deep at all: short literals whose sign / special handling must not depend on the build profile
+        // (this check runs in the release, dbgchk and unoptimised dbg0 builds)
+        let lits: [&[u8]; 24] = [
+            b"-nan", b"+nan", b"nan", b"-NaN", b"-inf", b"+inf", b"-infinity", b"-INFINITY", b"-0", b"-0.0", b"-0e5", b"-.0", b"-1e-400", b"-1e-99999999999", b"-4.9e-324", b"-1e400",
+            b"-1e99999999999", b"-1.5", b"+1.5", b"-nanx", b"-infx", b"- 1", b"-", b"-e5",
+        ];
+        let mut st = Stats::default();
+        for front in FRONTS.iter() {
+            for fmt in [Fmt::F32, Fmt::F64] {
+                for l in lits.iter() {
+                    check_front(front, fmt, l, &mut st).map_err(|f| f.message)?;
+                }
+            }
+        }
+        return Ok(());
+    }
     let input = deep_input(kind, n);
     let h = std::thread::Builder::new()
         .stack_size(2 << 20)
